@@ -300,6 +300,37 @@ theorem c10_ops_flatten (env : Env) (a b c : Spec) (t : V) :
     eval env (.and [a, b, c] none) t = eval env (.and [.and [a, b] none, c] none) t :=
   (Unflat.andFlat (cs := [a, b]) (.refl _) (.refl c)).eval_eq env t
 
+/-! ### operands that are objects which exist — and have been evaluated — already -/
+
+/-- **Facts obligation** behind modelling spec objects as immutable values (re-checked on
+    every run against /repo's source): no method of `_Bool`, `And`, `Or`, `Not`, `_MExpr`,
+    `_MSubspec`, `_MType`, `Switch`, `Check`, `Match`, `Regex`, `Optional`, `Required` stores
+    into, deletes, or calls a mutating method / `setattr` on an attribute of `self` outside
+    `__init__` (the table lists (class, method, attribute) of every such write; the `& | ~`
+    overloads are pinned to constructor calls by `c10_facts_wf`).  Hence evaluating an object,
+    or using it as an operand, leaves it the tree it was built as. -/
+theorem c10_specs_immutable : Generated.combSelfWrites = [] := by decide
+
+/-- An operand may be the object itself or the expression that built it: the operators see of
+    an operand only what `build` made of it.  (`objs i`: the object bound by the i-th statement,
+    `defs i`: its definition.) -/
+theorem c10_shared_operands (tbl : OpTable) (fl : Bool) (objs : Nat → Spec) (defs : Nat → OpExpr)
+    (e : OpExprX) (h : ∀ i ∈ e.uses, build tbl fl (defs i) = .ok (objs i)) :
+    build tbl fl (e.subst (fun i => .leaf (objs i))) = build tbl fl (e.subst defs) :=
+  build_subst_congr tbl fl _ _ e (fun i hi => by rw [h i hi]; rfl)
+
+/-- **Programs over spec objects** (checker theorem, the form evaluated on the implementation's
+    observations by the driver).  Sub-trees are bound to names, evaluated on arbitrary targets,
+    used as operands of `& | ~` — extended after they were evaluated, shared by several trees —
+    and the results evaluated and extended again: every evaluation of every object decides its
+    target like the constructor-built tree the object's definition denotes (earlier definitions
+    inlined), with the same callables in the same order; nothing depends on what was evaluated
+    before or on which other trees an operand is part of.  For all programs of any length. -/
+theorem c10_prog_checks (env : Env) (hwf : WF env = true) (steps : List Step)
+    (hl : ∀ e, Step.bind e ∈ steps → ∀ s ∈ e.leaves, ctorErr s = none) :
+    checkProg env.cls steps [] (runProg env steps []) = true :=
+  prog_checks (WF.facts hwf) steps [] [] HeapInv.nil hl
+
 /-! ### who rejected -/
 
 /-- **Every rejection by these combinators is a MatchError.**  A GlomError that leaves an
@@ -527,5 +558,20 @@ example : (eval genEnv (.check { type_ := some (.one "int") }) (.bool true)).1 =
   decide
 example : (eval genEnv (.check { instanceOf := some (.one "int") }) (.bool true)).1 = .ok (.bool true) := by
   decide
+
+-- a program: `base = (M > 0) & (M < 100); glom(5, base); ext = base & (M < 3); glom(5, ext); glom(5, base)`
+private def exProg : List Step :=
+  [.bind (.band (.leaf (.mexpr .m .gt (.const (.int 0)))) (.leaf (.mexpr .m .lt (.const (.int 100))))),
+   .eval 0 (.int 5),
+   .bind (.band (.use 0) (.leaf (.mexpr .m .lt (.const (.int 3))))),
+   .eval 1 (.int 5), .eval 0 (.int 5)]
+example : progWF exProg 0 = true := by decide
+example : runProg genEnv exProg [] =
+    [.bound, .obs (.ok (.int 5) []), .bound,
+     .obs (.exc "MatchError" true true false false false false []), .obs (.ok (.int 5) [])] := by decide
+-- what an implementation shows whose extended object still evaluates only the original
+-- children: the fourth statement returns 5 — the checker rejects it
+example : checkProg genEnv.cls exProg []
+    [.bound, .obs (.ok (.int 5) []), .bound, .obs (.ok (.int 5) []), .obs (.ok (.int 5) [])] = false := by decide
 
 end Glom.Props.C10
